@@ -42,7 +42,8 @@ def run_cases(ctx, cases, label, scratch):
                         continue          # an object no longer linked anywhere: the fault is unobservable in both
                     st = os.stat(paths[ino])
                     real_faults.append((prim, (st.st_dev, st.st_ino), en))
-                r = ET.run_impl(b, c.top, c.opts, c.allow_create, c.allow_xdev, c.ops, key, real_faults)
+                r = ET.run_impl(b, c.top, c.opts, c.allow_create, c.allow_xdev, c.ops, key, real_faults,
+                                jobs=(None, 1, 3)[c.meta.get('order_seed', 0) % 3])
                 if ET.LAST_STAMPS:
                     c.meta['stamps'] = list(ET.LAST_STAMPS)
             finally:
@@ -256,6 +257,12 @@ def reclassify(ctx, prop_text):
                         kind = 'spec'
                         desc = prop_text + f': implementation answered {str(a)[:200]}, the reference answer is {str(b)[:200]}'
                     break
+        if kind == 'correspondence' and isinstance(rp.get('impl'), list) and isinstance(rp.get('model'), list) \
+                and rp['impl'][0] == 'ok' and rp['model'][0] == 'err' and all(isinstance(x, list) and x and x[0] == 'ok' for x in rp['impl'][1]):
+            # the loader could not even be constructed in the reference (an error while reading the top-level Manifest), the
+            # implementation went on and reported success throughout
+            kind = 'spec'
+            desc = prop_text + f': the implementation succeeded throughout, the reference fails with {str(rp["model"][1])[:120]} before the first operation'
         new.append((kind, desc, rp))
     ctx.violations[:] = new
 
@@ -614,7 +621,7 @@ def c02(ctx):
             try:
                 c.tree.realise(b, s)
                 sub = r.choice(['', c.meta['dirs'][r.randint(c.meta['k'], c.meta['depth'])]])
-                flags = r.choice([[], ['--keep-going']])
+                flags = r.choice([[], ['--keep-going']]) + r.choice([[], ['-j', '1'], ['--jobs', '2']])
                 with ET.ScandirOrder(GT.order_key_for(c.meta['order_seed'])):
                     rc, items = run_cli_collect(['gemato', 'verify', '--no-openpgp-verify'] + flags + [os.path.join(b, sub) if sub else b])
             finally:
